@@ -213,7 +213,10 @@ def machine_shard(shard, seed, examples, strategy_factory, run_one, max_viol=4):
         for k, v in (r.get("known") or {}).items():
             out["known"][k] += v
         if r.get("nontrivial"):
-            out["nontrivial"].add(r["key"])
+            if r.get("keys"):
+                out["nontrivial"].update(r["keys"])
+            else:
+                out["nontrivial"].add(r["key"])
             if len(out["samples"]) < 2:
                 out["samples"].append(r.get("sample", case))
         if not r["ok"]:
